@@ -59,6 +59,9 @@ TRUSTED = [
     "constructor but do not change its values)",
     "numerical values: reference interpreter props/c18_ref.py; rounding, numba reduction order and single-precision "
     "accuracy are covered by the oracle tolerances only",
+    "operators built FROM operators (sums, differences, multiples, products holding their operands' memoised weak forms) "
+    "are outside the state machine of Model/Hist.lean: their histories are run by the oracle only (props/c18_derived.py: "
+    "after every step every assembled operator equals the NumPy expression of the leaf matrices), no theorem",
 ]
 ASSUMPTIONS = [
     "operators with domain = range = dual_to_range on one grid (DP0), Laplace single layer (thorough: also modified "
@@ -1240,6 +1243,12 @@ def oracle(ctx, plan=None):
                     sens.append(_rel(lst[a][1], lst[b][1]))
     if sens:
         res.stats["min_reference_sensitivity_to_regular_order"] = float(f"{min(sens):.3e}")
+    # histories over DERIVED operators (sums / differences / multiples / products holding their operands' memoised
+    # weak forms): assembling one operator must not change any other (props/c18_derived.py; seeded change C18-d)
+    if "derived_done" not in st:
+        st["derived_done"] = True
+        from props import c18_derived
+        c18_derived.derived_histories(ctx, res)
     if plan is st.get("plan"):
         st["oracle_keys"] = {c["key"] for c in res.counterexamples}
     return res
